@@ -89,10 +89,10 @@ Proof. exact build_no_pending. Qed.
 Print Assumptions C01_nothing_pending.
 
 (* Non-vacuity: diamond 1 -> {2, 3} -> 4 with a dynamic edge 1 -> 5 and a type-only edge 2 -> 6. *)
-Definition c01_dep (t : N) (c ty : res) (dyn : bool) : dep * bool :=
+Definition c01_dep (t : N) (c ty : res) (dyn : bool) : dep * dflags :=
   ({| d_text := t; d_filelike := false; d_code := c; d_type := ty; d_dyn := dyn;
-      d_deno_types := false; d_attr := 0 |}, false).
-Definition c01_mod (s : spec) (ds : list (dep * bool)) : spec * wresp :=
+      d_deno_types := false; d_attr := 0 |}, plain_dep).
+Definition c01_mod (s : spec) (ds : list (dep * dflags)) : spec * wresp :=
   (s, WModule s {| wm_hash_raw := 0; wm_hash_text := 0; wm_media := MTypeScript; wm_parse_ok := true; wm_kind := MkJs; wm_deps := ds; wm_tdep := None |}).
 Definition c01_world : world :=
   {| w_resp := [c01_mod 1 [c01_dep 10 (ROk 2 0) RNone false; c01_dep 11 (ROk 3 0) RNone false;
